@@ -161,6 +161,7 @@ pub fn c07_case(data: &[u8]) -> Option<c07::Case> {
         entry,
         input,
         kind: "random".into(),
+        known_output: None,
     })
 }
 
